@@ -10,7 +10,7 @@ FAMILY = {'legacy': 'legacy', 'p2sh-segwit': 'p2sh_p2wpkh', 'segwit': 'p2wpkh'}
 
 
 class C09World(WalletWorld):
-    OPS = [('issue', 16), ('explicit', 5), ('bulk', 5), ('account', 3), ('mixed', 4), ('scan_gap', 4), ('mark_used', 5),
+    OPS = [('issue', 16), ('import_key', 2), ('explicit', 5), ('bulk', 5), ('account', 3), ('mixed', 4), ('scan_gap', 4), ('mark_used', 5),
            ('handles', 7), ('rebuild', 4), ('watch', 3), ('fund', 2), ('mine', 1), ('arm_crash', 2), ('listing', 4)]
 
     def ops_table(self):
@@ -52,6 +52,12 @@ class C09World(WalletWorld):
                 w.violation('key_not_at_documented_path', dict(sig, field='single'), '%s %s vs %s' % (k.path, k.address, e))
             return
         if k.depth != self.key_depth(wi):
+            return
+        if str(k.path).startswith('import_key_'):
+            if where != 'listing':
+                w.violation('imported_key_handed_out', {'api': where},
+                            '%s: %s returned the imported single key %s (%s), which no derivation from the master key '
+                            'reproduces' % (wi.name, where, k.path, k.address))
             return
         e = self.expect(wi, k)
         if wi.kind == 'ms':
@@ -112,6 +118,8 @@ class C09World(WalletWorld):
             ok, k = self.observe(lambda: h.key(kid))
             if not ok:
                 self.w.violation('listed_key_unreadable', {'wallet_kind': wi.kind}, '%s: key(%d): %r' % (wi.name, kid, k))
+            if str(k.path).startswith('import_key_'):
+                continue        # an unrelated single key imported into the wallet; not part of any derivation chain
             chain = (k.account_id or 0, k.witness_type, k.change or 0, k.cosigner_id)
             c = chains.setdefault(chain, {})
             if k.address_index in c:
@@ -164,7 +172,8 @@ class C09World(WalletWorld):
         chain = (k.account_id or 0, k.witness_type, k.change or 0, k.cosigner_id)
         if (k.change or 0) != change or (acc is not None and (k.account_id or 0) != acc):
             w.violation('wrong_chain', {'api': how}, '%s: asked account %d change %d, got %s' % (wi.name, acc, change, k.path))
-        if before is not None and chain not in wi.explicit:
+        if before is not None:
+            # explicit-index requests may leave gaps, but issuing still continues after the highest index
             mx = self.chain_max(before, chain)
             existing = before.get(chain, {})
             if how.startswith('new_key'):
@@ -196,19 +205,23 @@ class C09World(WalletWorld):
         if not ok:
             return
         w.outcome('keys', paths=[k.path for k in ks])
+        ks_chain = [k for k in ks if not str(k.path).startswith('import_key_')]
         if len(ks) != n:
             w.violation('bulk_count', {'api': how}, 'asked %d keys, got %d' % (n, len(ks)))
         idx = []
         for k in ks:
             self.check_key(wi, k, how)
+            if str(k.path).startswith('import_key_'):
+                continue        # reported by check_key (recorded finding); not part of the chain's index bookkeeping
             idx.append(k.address_index)
             if (k.change or 0) != change:
                 w.violation('wrong_chain', {'api': how}, 'asked change %d, got %s' % (change, k.path))
         if len(set(idx)) != len(idx):
             w.violation('index_issued_twice', {'api': how}, 'bulk call returned indices %s' % idx)
-        if before is not None and ks:
+        if before is not None and ks_chain:
+            ks = ks_chain
             chain = (ks[0].account_id or 0, ks[0].witness_type, change, ks[0].cosigner_id)
-            if chain not in wi.explicit:
+            if how == 'new_keys' or chain not in wi.explicit:
                 mx = self.chain_max(before, chain)
                 new = sorted(i for i in idx if i not in before.get(chain, {}))
                 if new and new != list(range(mx + 1, mx + 1 + len(new))):
@@ -283,10 +296,25 @@ class C09World(WalletWorld):
             w.violation('wrong_chain', {'api': 'mixed'}, 'asked witness type %s got %s' % (wt, k.witness_type))
         self.check_key(wi, k, 'mixed')
         chain = (k.account_id or 0, k.witness_type, k.change or 0, k.cosigner_id)
-        if before is not None and how.startswith('new_key') and chain not in wi.explicit:
+        if before is not None and how.startswith('new_key'):
             mx = self.chain_max(before, chain)
             if k.address_index != mx + 1:
                 w.violation('index_not_next', {'api': 'mixed_' + how}, 'chain %s max %d, got %d' % (chain, mx, k.address_index))
+
+    def op_import_key(self, wi):
+        """Import an unrelated single private key into an HD wallet: key issuing must not be disturbed."""
+        ch, w = self.ch, self.w
+        if wi.kind != 'hd':
+            return
+        h = self.H(wi)
+        self.imported = getattr(self, 'imported', 0) + 1
+        priv = int.from_bytes(rhashes.sha256(b'imported %d %d' % (self.imported, ch.seed % 1000003)), 'big') % (rec.N - 1) + 1
+        wif = rcodec.wif_encode(priv, True, rcodec.NETWORKS[self.network]['wif'])
+        w.op('import_key', wallet=wi.name)
+        ok, k = self.call(wi, 'import_key', lambda: h.import_key(wif))
+        if ok:
+            w.outcome('imported', key_id=getattr(k, 'key_id', None))
+            wi.has_imported = True
 
     def op_mark_used(self, wi):
         """Fund an issued address and let the wallet learn about it: the next get_key must move on."""
